@@ -20,6 +20,7 @@ def run(rep, tier):
     errs = [r for r in res if "harness_error" in r]
     if errs:
         raise lib.Infra("harness error: " + errs[0]["harness_error"] + errs[0].get("tb", ""))
+    res, n_unusable = lib.unusable_guard(rep, PROP, res, "decoder trees")
     res = [r for r in res if not r.get("skip")]
     shown = 0
     for r in res:
